@@ -58,6 +58,8 @@ class HG:
         self.avoid = set(avoid)
         self.fns = set()        # indices of OBJS that are function objects
 
+    dp = 0
+
     def obj(self):
         return "OBJS[%d]" % self.r.randrange(self.n)
 
@@ -120,7 +122,15 @@ class HG:
         if r < 0.60:
             return "log('del', delete %s%s);" % (o, self.keyexpr(k))
         if r < 0.70:
-            return "Object.defineProperty(%s, %s, {get: function () { return 'dp:' + SV(this.b); }, set: function (v) { this.sink = v; }, enumerable: true, configurable: true});" % (o, json.dumps(k if k != "sink" else "zz"))
+            kk = json.dumps(k if k != "sink" else "zz")
+            if "descriptor-shapes" in self.avoid:
+                return "Object.defineProperty(%s, %s, {get: function () { return 'dp:' + SV(this.b); }, set: function (v) { this.sink = v; }, enumerable: true, configurable: true});" % (o, kk)
+            self.dp += 1
+            g = "get: function () { return 'dp%d:' + SV(this.b); }" % self.dp
+            st = "set: function (v) { this.sink = 'dp%d>' + SV(v); }" % self.dp
+            shape = self.r.choice([g + ", " + st, g + ", " + st, g, st, g, st, g + ", set: undefined", "get: undefined, " + st,
+                                   "value: %d, writable: true" % self.dp, "value: 'v%d', writable: true" % self.dp])
+            return "try { Object.defineProperty(%s, %s, {%s, enumerable: true, configurable: true}); } catch (e) { log('dp-threw', e.name); }" % (o, kk, shape)
         if r < 0.80:
             target = self.obj()
             proto = self.r.choice([self.plain(), "null", "Object.prototype"])
@@ -252,7 +262,7 @@ def main(ctx):
         cases.append({"id": h(["table", ident]), "fam": "call-table", "ident": list(ident), "src": src})
     for name, src in EXTRA:
         cases.append({"id": h(["extra", name]), "fam": "extra", "ident": [name], "src": "function tag(x) { return typeof x; }\n" + src})
-    nh = 500 if ctx.quick else 15000
+    nh = 2000 if ctx.quick else 15000
     for i in range(nh):
         r = fixed if i % 2 == 0 else rng
         cases.append({"id": h(["hist", r is fixed, i]), "fam": "history", "ident": ["fixed" if r is fixed else "rnd", i], "src": history(r, r.randint(4, 14))})
